@@ -46,5 +46,15 @@
  */
 int snoopy_output_stdoutoutput (char const * const logMessage, __attribute__((unused)) char const * const arg)
 {
-    return fprintf(stdout, "%s\n", logMessage);
+    int charCount;
+
+    charCount = fprintf(stdout, "%s\n", logMessage);
+
+    /*
+     * The record must leave the process before execve() replaces the process
+     * image - stdout is fully buffered when it is a pipe or a file.
+     */
+    fflush(stdout);
+
+    return charCount;
 }
